@@ -50,7 +50,8 @@ func (solarWeek *SolarWeek) GetIndex() int {
 	if offset < 0 {
 		offset += 7
 	}
-	return int(math.Ceil(float64(solarWeek.day+offset) / 7))
+	days := SolarUtil.GetDaysBetween(solarWeek.year, solarWeek.month, 1, solarWeek.year, solarWeek.month, solarWeek.day) + 1
+	return int(math.Ceil(float64(days+offset) / 7))
 }
 
 func (solarWeek *SolarWeek) GetIndexInYear() int {
